@@ -369,4 +369,147 @@ theorem C09_rule_statuses_are_evaluations (env : Env) (fuel : Nat) (file : Rules
         rw [ih ps hps.2]
   exact key _ _ hc
 
+/-! ### nested rule entries (references to named / parameterised rules that failed) carry the record's message -/
+
+mutual
+/-- every `Rule` entry of a report, at any depth, as (name, custom message) -/
+def ruleEntries : CR → List (Str × Option Str)
+  | .rule n m cs => (n, m) :: ruleEntriesList cs
+  | .block _ => []
+  | .disjunctions cs => ruleEntriesList cs
+  | .clause _ => []
+def ruleEntriesList : List CR → List (Str × Option Str)
+  | [] => []
+  | c :: cs => ruleEntries c ++ ruleEntriesList cs
+end
+
+mutual
+/-- every FAIL rule record of a tree, at any depth, as (name, recorded message) -/
+def failedRuleRecs : Rec → List (Str × Option Str)
+  | .node k ch =>
+    (match k with
+     | .ruleCheck n .fail m => [(n, m)]
+     | _ => []) ++ failedRuleRecsList ch
+def failedRuleRecsList : List Rec → List (Str × Option Str)
+  | [] => []
+  | r :: rs => failedRuleRecs r ++ failedRuleRecsList rs
+end
+
+theorem ruleEntriesList_append (a b : List CR) : ruleEntriesList (a ++ b) = ruleEntriesList a ++ ruleEntriesList b := by
+  induction a with
+  | nil => rfl
+  | cons x xs ih => simp [ruleEntriesList, ih, List.append_assoc]
+
+mutual
+theorem ruleEntries_sub (r : Rec) : ∀ e ∈ ruleEntriesList (reportFailed r), e ∈ failedRuleRecs r := by
+  cases r with
+  | node k ch =>
+    intro e he
+    have ih := ruleEntriesList_sub ch
+    have sub : ∀ x, x ∈ failedRuleRecsList ch → x ∈ failedRuleRecs (.node k ch) := by
+      intro x hx; simp only [failedRuleRecs, List.mem_append]; exact Or.inr hx
+    cases k with
+    | ruleCheck name s msg =>
+      cases s with
+      | fail =>
+        have : ruleEntriesList (reportFailed (.node (.ruleCheck name .fail msg) ch)) =
+            (name, msg) :: ruleEntriesList (reportFailedList ch) := by
+          simp [reportFailed, ruleEntriesList, ruleEntries]
+        rw [this] at he
+        rcases List.mem_cons.mp he with rfl | h
+        · simp [failedRuleRecs]
+        · exact sub e (ih e h)
+      | pass => simp [reportFailed, ruleEntriesList] at he
+      | skip => simp [reportFailed, ruleEntriesList] at he
+    | blockGuardCheck s =>
+      cases s with
+      | fail =>
+        by_cases hem : ch.isEmpty = true
+        · simp [reportFailed, hem, ruleEntriesList, ruleEntries] at he
+        · have : reportFailed (.node (.blockGuardCheck .fail) ch) = reportFailedList ch := by
+            simp [reportFailed, hem]
+          rw [this] at he; exact sub e (ih e he)
+      | pass => simp [reportFailed, ruleEntriesList] at he
+      | skip => simp [reportFailed, ruleEntriesList] at he
+    | disjunction s =>
+      cases s with
+      | fail =>
+        have : ruleEntriesList (reportFailed (.node (.disjunction .fail) ch)) = ruleEntriesList (reportFailedList ch) := by
+          simp [reportFailed, ruleEntriesList, ruleEntries]
+        rw [this] at he; exact sub e (ih e he)
+      | pass => simp [reportFailed, ruleEntriesList] at he
+      | skip => simp [reportFailed, ruleEntriesList] at he
+    | guardClauseBlockCheck s =>
+      cases s with
+      | fail =>
+        have : reportFailed (.node (.guardClauseBlockCheck .fail) ch) = reportFailedList ch := by simp [reportFailed]
+        rw [this] at he; exact sub e (ih e he)
+      | pass => simp [reportFailed, ruleEntriesList] at he
+      | skip => simp [reportFailed, ruleEntriesList] at he
+    | typeBlock s =>
+      cases s with
+      | fail =>
+        have : reportFailed (.node (.typeBlock .fail) ch) = reportFailedList ch := by simp [reportFailed]
+        rw [this] at he; exact sub e (ih e he)
+      | pass => simp [reportFailed, ruleEntriesList] at he
+      | skip => simp [reportFailed, ruleEntriesList] at he
+    | typeCheck n s =>
+      cases s with
+      | fail =>
+        have : reportFailed (.node (.typeCheck n .fail) ch) = reportFailedList ch := by simp [reportFailed]
+        rw [this] at he; exact sub e (ih e he)
+      | pass => simp [reportFailed, ruleEntriesList] at he
+      | skip => simp [reportFailed, ruleEntriesList] at he
+    | whenCheck s =>
+      cases s with
+      | fail =>
+        have : reportFailed (.node (.whenCheck .fail) ch) = reportFailedList ch := by simp [reportFailed]
+        rw [this] at he; exact sub e (ih e he)
+      | pass => simp [reportFailed, ruleEntriesList] at he
+      | skip => simp [reportFailed, ruleEntriesList] at he
+    | clauseValueCheck cc =>
+      exfalso
+      cases cc with
+      | success => simp [reportFailed, ClauseCheck.reported, ruleEntriesList] at he
+      | missingBlockValue f => simp [reportFailed, ruleEntriesList, ruleEntries] at he
+      | comparison f t o n m =>
+        by_cases hr : (ClauseCheck.comparison f t o n m).reported = true
+        · simp [reportFailed, hr, ruleEntriesList, ruleEntries] at he
+        · simp [reportFailed, hr, ruleEntriesList] at he
+      | inComparison f t o n m => simp [reportFailed, ClauseCheck.reported, ruleEntriesList, ruleEntries] at he
+      | unary f o n m => simp [reportFailed, ClauseCheck.reported, ruleEntriesList, ruleEntries] at he
+      | noValueForEmptyCheck m => simp [reportFailed, ClauseCheck.reported, ruleEntriesList, ruleEntries] at he
+      | dependentRule r m => simp [reportFailed, ClauseCheck.reported, ruleEntriesList, ruleEntries] at he
+    | fileCheck s => simp [reportFailed, ruleEntriesList] at he
+    | ruleCondition s => simp [reportFailed, ruleEntriesList] at he
+    | typeCondition s => simp [reportFailed, ruleEntriesList] at he
+    | filter s => simp [reportFailed, ruleEntriesList] at he
+    | whenCondition s => simp [reportFailed, ruleEntriesList] at he
+theorem ruleEntriesList_sub (rs : List Rec) : ∀ e ∈ ruleEntriesList (reportFailedList rs), e ∈ failedRuleRecsList rs := by
+  cases rs with
+  | nil => intro e he; simp [reportFailedList, ruleEntriesList] at he
+  | cons r rest =>
+    intro e he
+    simp only [reportFailedList, ruleEntriesList_append, List.mem_append] at he
+    simp only [failedRuleRecsList, List.mem_append]
+    rcases he with h | h
+    · exact Or.inl (ruleEntries_sub r e h)
+    · exact Or.inr (ruleEntriesList_sub rest e h)
+end
+
+/-- **every `Rule` entry of the report, nested ones included, is a rule record that FAILed and carries the message
+    recorded with it** (for a failing call of a parameterised rule that is the custom message written after the call) -/
+theorem C09_rule_entries_carry_recorded_message (s : Status) (ch : List Rec) (rep : FileReport)
+    (h : fileReport (.node (.fileCheck s) ch) = some rep) :
+    ∀ e ∈ ruleEntriesList rep.notCompliant, e ∈ failedRuleRecsList ch := by
+  simp only [fileReport, Option.some.injEq] at h
+  subst h
+  exact ruleEntriesList_sub ch
+
+-- Non-vacuity: a failing rule whose only child is a failing call record with a message
+example : ruleEntriesList (reportFailedList
+    [.node (.ruleCheck "caller".toList .fail none) [.node (.ruleCheck "callee".toList .fail (some "why".toList)) []]]) =
+    [("caller".toList, none), ("callee".toList, some "why".toList)] := by
+  decide
+
 end Guard.C09
